@@ -51,12 +51,18 @@ impl Sys {
             use lightning_signer::bitcoin::Network;
             World::new_on(
                 Network::Testnet,
-                lightning_signer::policy::simple_validator::make_default_simple_policy(Network::Testnet),
+                {
+                    let mut p = lightning_signer::policy::simple_validator::make_default_simple_policy(Network::Testnet);
+                    p.max_invoices = 4;
+                    p
+                },
                 seed,
                 KeyDerivationStyle::Native,
             )
         } else {
-            World::new(World::default_policy(), seed, KeyDerivationStyle::Native)
+            let mut policy = World::default_policy();
+            policy.max_invoices = 4; // Model.NodeOps.MAX_INV: the approvals table fills up
+            World::new(policy, seed, KeyDerivationStyle::Native)
         };
         let node = world.new_node();
         let node_id = node.get_id();
